@@ -1934,11 +1934,12 @@ class Selector(SelectorBase, _SignatureSelector):
     @objects.setter
     def objects(self, objects):
         if isinstance(objects, collections.abc.Mapping):
-            self.names = objects
+            self.names = copy.copy(objects)
             self._objects = list(objects.values())
         else:
             self.names = {}
-            self._objects = objects
+            # (Undefined / None while the Parameter is being declared)
+            self._objects = list(objects) if isinstance(objects, (list, tuple)) else objects
 
     # Note that if the list of objects is changed, the current value for
     # this parameter in existing POs could be outside of the new range.
